@@ -22,7 +22,10 @@
     * the forward expansion loop (which cannot panic) is written as a common-prefix length;
     * the dead store `done = pair{start.x + n, start.y + n}` is not modelled (after it the code
       either breaks or overwrites `done`);
-    * Go maps are association lists (`m[s]` of a missing key is 0, as in Go).
+    * Go maps are association lists (`m[s]` of a missing key is 0, as in Go);
+    * `sort.Search`'s loop carries an iteration bound (`j - i`, which strictly decreases) so that it
+      is structurally recursive; running out would give `none`, and `search_spec` shows it cannot;
+    * `%d` is an own decimal printer (so that the kernel can evaluate the examples).
 -/
 import GIV.Basic
 import GIV.Gen.Diff
@@ -93,26 +96,34 @@ def gatherX : List α → Nat → Map α → Array Nat → Array Nat → Array N
 
 end
 
-/-- `sort.Search` on `[i, j)`: `for i < j { h := (i+j)/2; if !f(h) { i = h+1 } else { j = h } }; return i`.
-`f` may panic (`none`). -/
-def search (f : Nat → Option Bool) (i j : Nat) : Option Nat :=
-  if _h : i < j then
-    match f ((i + j) / 2) with
-    | none => none
-    | some false => search f ((i + j) / 2 + 1) j
-    | some true => search f i ((i + j) / 2)
-  else some i
-termination_by j - i
-decreasing_by all_goals omega
+/-- The loop of `sort.Search`: `for i < j { h := int(uint(i+j) >> 1); if !f(h) { i = h+1 } else { j = h } }; return i`.
+`f` may panic (`none`).  The first argument bounds the number of iterations; `j - i` strictly
+decreases, so with `fuel ≥ j - i` the bound is never hit (it would give `none`, never a wrong index). -/
+def searchLoop (f : Nat → Option Bool) : Nat → Nat → Nat → Option Nat
+  | 0, i, j => if i < j then none else some i
+  | fuel + 1, i, j =>
+    if i < j then
+      match f ((i + j) / 2) with
+      | none => none
+      | some false => searchLoop f fuel ((i + j) / 2 + 1) j
+      | some true => searchLoop f fuel i ((i + j) / 2)
+    else some i
+
+/-- `sort.Search` on `[i, j)`. -/
+def search (f : Nat → Option Bool) (i j : Nat) : Option Nat := searchLoop f (j - i) i j
+
+/-- the closure passed to `sort.Search`: `func(k int) bool { return T[k] >= J[i] }` -/
+def searchF (T : Array Int) (J : Array Nat) (i : Nat) (k : Nat) : Option Bool :=
+  match T[k]?, J[i]? with
+  | some t, some j => some (Gen.Diff.searchPred t j)
+  | _, _ => none
 
 /-- `for i := range n { k := sort.Search(n, T[k] >= J[i]); T[k] = J[i]; L[i] = k+1 }`;
 first argument = iterations left. -/
 def lisLoop (J : Array Nat) (n : Nat) : Nat → Nat → Array Int → Array Nat → Option (Array Int × Array Nat)
   | 0, _, T, L => some (T, L)
   | fuel + 1, i, T, L =>
-    match search (fun k => match T[k]?, J[i]? with
-        | some t, some j => some (Gen.Diff.searchPred t j)
-        | _, _ => none) 0 n with
+    match search (searchF T J i) 0 n with
     | none => none
     | some k =>
       match J[i]? with
@@ -331,8 +342,17 @@ end
 
 /-! ### rendering -/
 
+/-- decimal digits of `n`, most significant first, in front of `acc`; the first argument bounds
+the number of digits (`n + 1` always suffices) -/
+def natDigits : Nat → Nat → Bytes → Bytes
+  | 0, _, acc => acc
+  | fuel + 1, n, acc =>
+    if n < 10 then (48 + n).toUInt8 :: acc else natDigits fuel (n / 10) ((48 + n % 10).toUInt8 :: acc)
+
+def fmtNat (n : Nat) : Bytes := natDigits (n + 1) n []
+
 /-- `%d` -/
-def fmtInt (i : Int) : Bytes := (toString i).toUTF8.toList
+def fmtInt (i : Int) : Bytes := if i < 0 then 45 :: fmtNat i.natAbs else fmtNat i.toNat
 
 /-- `fmt.Sprintf` for formats made of literal bytes, `%d` and `%s`; `args` are the rendered
 arguments in order.  `none` = a verb without argument or an unknown verb (not modelled). -/
